@@ -842,8 +842,10 @@ struct Brent : Bracket_Method
 				}
 			}
 		}
-		std::cerr << "Error in Brent::Minimize(): Too many iterations." << std::endl;
-		std::exit(EXIT_FAILURE);
+		std::cerr << "Warning in Brent::Minimize(): Too many iterations. Return the best point found." << std::endl;
+		f_min = fx;
+		x_min = x;
+		return x_min;
 	}
 };
 
